@@ -63,6 +63,8 @@ def judge_result(out, P, tr, cfg, nit0, n0, where, tags):
     if tr.exc is not None:
         out.count("runs_raised")
         out.count("raised:" + type(tr.exc).__name__)
+        out.violate("run_raised_instead_of_reporting", f"{where}: the run raised {tr.exc!r} instead of returning a termination reason "
+                    f"(maxiter={cfg['maxiter']}, maxfun={cfg['maxfun']}, maxls={cfg['maxls']})", exc=type(tr.exc).__name__, **tags)
         return None
     r = tr.snap
     msg = r["message"]
